@@ -128,7 +128,9 @@ func TestC11Configs(t *testing.T) {
 			if cerr != nil {
 				if ce, ok := execpool.IsCrash(cerr); ok {
 					if ce.Kind == "hang" && !ce.Deadlock {
-						t.Fatalf("INCONCLUSIVE[%s] %s", ce.Signature, ctx)
+						evid.Class("inconclusive:no-answer-within-bound")
+						t.Logf("inconclusive (no structural deadlock witness): %s %s", ce.Signature, ctx)
+						return
 					}
 					t.Fatalf("%s\n%s", evid.Sig("C11:crash:"+ce.Signature, "the query process died or deadlocked: %s\n  %s", ce.Signature, ctx), ce.Stderr)
 				}
